@@ -75,7 +75,8 @@ class SigmaValidator:
                 vs.add(v)
 
         try:  # convert validator names into classes
-            validator_classes = {validators[v] for v in vs}
+            # sorted: with several unknown names the one reported is the same in every process
+            validator_classes = {validators[v] for v in sorted(vs)}
         except KeyError as e:
             raise SigmaConfigurationError(f"Unknown validator '{ e.args[0] }'")
 
